@@ -178,6 +178,15 @@ def families():
         for a1, a2, a3 in itertools.product(args, repeat=3):
             if len({repr(a1), repr(a2), repr(a3)}) > 1:
                 yield [{'id': '#r', 'name': [P('x'), P('y')], 'cons': [[['y', [['fn', fn, [a1, a2, a3]]]]]], 'sign': []}]
+    # -- V: sibling literal components of different lengths at one position (value edges of one node), in every order of definition:
+    #       the octets of the shorter one may sort after those of the longer one ("b" after "ab") while its encoding sorts before
+    lits = ['a', 'b', 'ab', 'ba', 'aab']
+    for k in (2, 3):
+        for sub in itertools.permutations(lits, k):
+            if k == 3 and list(sub) != sorted(sub) and list(sub) != sorted(sub, reverse=True):
+                continue
+            yield [{'id': f'#v{i}', 'name': [L(m), P('x')], 'cons': [], 'sign': []} for i, m in enumerate(sub)]
+            yield [{'id': f'#v{i}', 'name': [P('x'), L(m)], 'cons': [], 'sign': []} for i, m in enumerate(sub)]
     # -- S
     calls = [['fn', '$eq', [L('a')]], ['fn', '$eq', [L('b')]], ['fn', '$ne', [L('a')]], ['fn', '$eq', [P('x')]], ['fn', '$ne', [P('x')]],
              ['fn', '$eq', [L('a'), P('x')]], ['fn', '$eq', [L('b'), P('x')]]]
